@@ -1055,7 +1055,7 @@ fn c03_variants(bytes: &[u8]) -> Vec<String> {
         let mut k = 0usize;
         while pos + 4 <= a.value.len() {
             let l = u16::from_be_bytes([a.value[pos + 2], a.value[pos + 3]]) as u64;
-            for x in (0..=l + 9).filter(|x| *x != l) {
+            for x in (0..=l + 9).chain(0xFFF8..=0xFFFF).filter(|x| *x != l) {
                 v.push(format!("corrupt=nested-set idx={} k={} v={}", ni, k, x));
             }
             pos += 4 + wire::pad4(l as usize);
